@@ -49,7 +49,7 @@ class C09(Case):
         sp = self.spec
         need = S.extras_needed(sp["cond"])
         classes = [None, SubItem, None] if sp.get("mixed") else None
-        return S.make_objects(mk, Item, "x", sp.get("n", 3), extra=tuple(e for e in ("f", "t", "d", "s") if e in need),
+        return S.make_objects(mk, Item, "x", sp.get("n", 3), extra=tuple(e for e in ("f", "t", "d", "s", "sl") if e in need),
                               classes=classes)
 
     def _build(self, items):
